@@ -63,22 +63,45 @@ def candidate_wids(seed: int, prop: str):
                 yield w + "#s1"
     # extension family genx (several start events, loops inside break
     # branches): C05 names such jobs in its quantifier; C07 explores it too
+    mixed = [("gen", i) for i in gens]
     if prop in ("C05", "C07"):
         # one genx definition after every three gen definitions
         gx = list(range(grid.N_GENX))
         r.shuffle(gx)
-        mixed = []
         gi = iter(gx)
-        for n, i in enumerate(gens):
-            mixed.append(("gen", i))
+        out = []
+        for n, it in enumerate(mixed):
+            out.append(it)
             if n % 3 == 2:
                 j = next(gi, None)
                 if j is not None:
-                    mixed.append(("genx", j))
-        gens = mixed
-    else:
-        gens = [("gen", i) for i in gens]
+                    out.append(("genx", j))
+        mixed = out
+    if prop in ("C03", "C05", "C07"):
+        # second extension family geny (F with the separation rules relaxed:
+        # blocks back to back, branches / loop bodies beginning with a block);
+        # complete samples only; one after every five others
+        gy = list(range(grid.N_GENY))
+        r.shuffle(gy)
+        gi = iter(gy)
+        out = []
+        for n, it in enumerate(mixed):
+            out.append(it)
+            if n % 5 == 4:
+                j = next(gi, None)
+                if j is not None:
+                    out.append(("geny", j))
+        mixed = out
+    gens = mixed
     for n, (fam, i) in enumerate(gens):
+        if fam == "geny":
+            d = gen_defs.geny_def(i)
+            if gen_defs.excluded_by(d) and prop != "C07":
+                continue
+            if prop == "C07" and puml_sem.count_kind(d, ("loop",)) == 0:
+                continue
+            yield f"geny:{i}"
+            continue
         if fam == "genx":
             d = gen_defs.genx_def(i)
             if gen_defs.excluded_by(d) and prop != "C07":
@@ -331,12 +354,14 @@ def minimise(pool, prop: str, unit: dict, rec: dict, cls: str,
     # 3. shrink the definition (complete samples only: indices stay valid)
     if best_u["present"].get("order") is None or best_r.get("complete"):
         progress = True
+        # definitions of the relaxed family geny are not in F themselves
+        strict_f = valid_f(best_u["ast"])
         while progress and spent < budget:
             progress = False
             for cand in shrink_candidates(best_u["ast"]):
                 if spent >= budget:
                     break
-                if not valid_f(cand):
+                if not cand or (strict_f and not valid_f(cand)):
                     continue
                 if prop != "C07" and gen_defs.excluded_by(cand):
                     continue  # never shrink into a class the pinned tree
